@@ -545,6 +545,72 @@ theorem osv_encoded_vulnerability (eco : OsvEcosystems) (proto : Vuln) (ecosyste
     | some cl => cases cl <;> rfl
   simp [cellVuln, hr, he, hne]
 
+/-- ECOSYSTEM range of an ecosystem without encoder (crates.io, Packagist, NuGet,
+    …), ANY event list: no events, no vulnerability; otherwise exactly one range
+    cell, without bounds, whose FixedInVersion is the `fixed` of the last event
+    that has one and no `introduced` (`otherUpd` folded over the events). So a
+    single interval `introduced a, fixed b` is carried exactly (FixedInVersion
+    b); several intervals are not (finding `osv-ecosystem-intervals-merged`). -/
+theorem osv_other_range_exact (hasVersions : Bool) (evs : List OsvEvent) :
+    (runEvents .other hasVersions {} evs).vers = if evs.isEmpty then [] else [evs.foldl otherUpd {}] := by
+  have := runOther_eq hasVersions evs {} rfl (by decide)
+  simpa [EvState.vers] using this
+
+/-- … in particular one interval `introduced a (fixed b)?` yields the cell with FixedInVersion b ("" when open). -/
+theorem osv_other_single_interval (hasVersions : Bool) (iv : Interval) (hi : iv.intro ≠ "") :
+    (runEvents .other hasVersions {} (eventsOf [iv])).vers =
+      [{ fixed := match iv.close with | some (.fixed v _) => v | _ => "" }] := by
+  rw [osv_other_range_exact]
+  cases hc : iv.close with
+  | none => simp [eventsOf, Interval.events, hc, introEvent, otherUpd, hi]
+  | some cl =>
+    cases cl with
+    | fixed v p =>
+      by_cases hv : v = "" <;> simp [eventsOf, Interval.events, hc, introEvent, otherUpd, hi, Closing.event, hv]
+    | lastAffected v p => simp [eventsOf, Interval.events, hc, introEvent, otherUpd, hi, Closing.event]
+
+/-- Severity selection of `Insert`: the LAST `CVSS_V3` / `CVSS_V2` entry gives
+    severity string and rating; when there is none (or its vector is empty),
+    `database_specific.severity` — if it is a string — gives the string and the
+    documented `severityFromDBString` value; otherwise the severity is Unknown. -/
+theorem osv_severity_selection (dbSev : String → Nat) (a : OsvAdvisory) :
+    (∀ pre s post, a.severities = pre ++ s :: post → (s.type = "CVSS_V3" ∨ s.type = "CVSS_V2") → s.score ≠ "" →
+      (∀ x ∈ post, x.type ≠ "CVSS_V3" ∧ x.type ≠ "CVSS_V2") → osvSeverity dbSev a = (s.score, s.rating)) ∧
+    ((∀ x ∈ a.severities, x.type ≠ "CVSS_V3" ∧ x.type ≠ "CVSS_V2") →
+      osvSeverity dbSev a = match a.dbSeverity with | some s => (s, dbSev s) | none => ("", 0)) := by
+  constructor
+  · intro pre s post hs ht hne hpost
+    have : osvCvss a.severities ("", 0) = (s.score, s.rating) := by
+      rw [hs, osvCvss_append]
+      simp only [osvCvss]
+      rw [if_pos ht, osvCvss_none post _ hpost]
+    unfold osvSeverity
+    simp [this, hne]
+  · intro h
+    unfold osvSeverity
+    rw [osvCvss_none _ _ h]
+    cases a.dbSeverity <;> simp
+
+/-- `Package.RepositoryHint`: the package records of one `Parse` are shared by
+    name; when every package name of the dump belongs to one ecosystem, each
+    vulnerability carries its affected entry's ecosystem (`shareHints` changes
+    nothing). In general a vulnerability shows the ecosystem of the first
+    returned vulnerability with the same package name. -/
+theorem osv_repository_hint (vs : List Vuln) :
+    ((∀ v ∈ vs, ∀ w ∈ vs, v.pkgName = w.pkgName → v.pkgHint = w.pkgHint) → shareHints vs = vs) ∧
+    (shareHints vs).length = vs.length ∧
+    (∀ v ∈ shareHints vs, ∃ w ∈ vs, w.pkgName = v.pkgName ∧ v.pkgHint = w.pkgHint) := by
+  refine ⟨shareHints_id vs, by simp [shareHints], ?_⟩
+  intro v hv
+  simp only [shareHints, List.mem_map] at hv
+  obtain ⟨u, hu, rfl⟩ := hv
+  cases hf : vs.find? (fun w => w.pkgName == u.pkgName) with
+  | none => exact ⟨u, hu, by simp, by simp⟩
+  | some w =>
+    have hw := List.mem_of_find?_eq_some hf
+    have hn : w.pkgName = u.pkgName := by have := List.find?_some hf; simpa using this
+    exact ⟨w, hw, by simp [hn], by simp⟩
+
 /-! ## Part 5: Red Hat VEX (CSAF) -/
 
 /-- Product-tree resolution of the two shapes Red Hat publishes, for ANY list of
